@@ -212,7 +212,7 @@ impl Property for C13 {
     }
     fn probes(&self, _tier: Tier) -> Vec<(String, Case)> {
         use crate::fixedgen::*;
-        let ff = FixedFile { layout: 0, recs: (0..3).map(|k| FRec { sec: 1_600_000_000 + k, usec: 5, null: 0, pid: 100 + k as i32, typ: 6, serial: k as u32, full: 0, stale: 0 }).collect() };
+        let ff = FixedFile { layout: 0, recs: (0..3).map(|k| FRec { sec: 1_600_000_000 + k, usec: 5, null: 0, pid: 100 + k as i32, typ: 6, serial: k as u32, full: 0, stale: 0, addr: [0; 4] }).collect() };
         let base = Opts { file: 1, align: false, dt: 1, z15: 0, fmt: None, psep: None, sep: None, color: false };
         vec![
             ("fixedstruct-n-u-nocolor".into(), Case { srcs: vec![Source::Fixed { file: ff.clone(), codec: Codec::Plain }], stems: vec!["aw".into()], opts: base.clone(), tz_off: 0 }),
